@@ -316,6 +316,19 @@ def generate(prop, seed, tier="quick", fault_free=False):
                             "dataset": 0, "post": None, "qmd": False, "exec_before": False,
                             "want_pickle": False, "hash_early": False, "lift": True})
                 bid += 1
+    if not fault_free:
+        # fault kinds added later draw from their own PRNG sub-stream (earlier draws unchanged)
+        x = st.get("faults2")
+        for nd in nodes:
+            # object lifetime: inside the package, id() hands the numbers of dead objects to new
+            # ones (sim/simid.py) - builds of one node follow each other in one process and
+            # each query dies when the next one is built
+            nd["simid"] = x.randrange(2 ** 31) if x.random() < 0.5 else None
+        for op in ops:
+            if op.get("variant") not in ("long_chain",) and not op.get("pad_to") and x.random() < 0.1:
+                # crash point: the first hash of this query is hit by an asynchronous exception
+                # at its k-th line; the query is then hashed again as usual
+                op["crash"] = [int(2 ** x.uniform(0, 5.5)), x.choice(["keyboard", "memory", "abort"])]
     return {"property": prop, "engine": "hash_cluster", "engine_version": ENGINE_VERSION,
             "seed": seed, "sched_seed": 0, "config": {"nodes": nodes}, "ops": ops}
 
@@ -328,7 +341,7 @@ def run_node(node, builds):
     env["PYTHONHASHSEED"] = str(node["hashseed"])
     env.pop("VERIF_HASHSEED", None)
     job = {"src": func_adl_src(), "epoch": node["epoch"], "prehistory": node["prehistory"],
-           "import_order": node["import_order"], "builds": builds}
+           "import_order": node["import_order"], "builds": builds, "simid": node.get("simid")}
     p = subprocess.run([sys.executable, NODE_SCRIPT], input=json.dumps(job), env=env,
                        capture_output=True, text=True, timeout=120)
     if p.returncode != 0:
@@ -397,6 +410,12 @@ def execute(case):
                                                                 "error": r["error"][:200],
                                                                 "build": _brief(b)}}
                 continue
+            if r.get("crashed") is not None:
+                stat("fault_crash_point_armed")
+                if r["crashed"]:
+                    stat("fault_crash_point_fired")
+            if r.get("simid_reused"):
+                stat("fault_lifetime_id_reused", r["simid_reused"])
             meta = {**b, "node": ni}
             results.append((meta, r["hash"], r["canon"]))
             events.append(f"{b['id']}|{r['hash']}|{hashlib.sha1(r['canon'].encode()).hexdigest()[:10]}")
